@@ -30,6 +30,8 @@ PROPS = {
     'C12': ('c12', 'other', ['SUNalg']),
     'C04': ('c04', 'other', ['SQuIDS', 'SUNalg', 'instantiate']),
     'C10': ('c10', 'other', ['SQuIDS', 'SUNalg', 'instantiate']),
+    'C05': ('c05', 'other', ['SQuIDS', 'SUNalg', 'instantiate']),
+    'C17': ('c17', 'other', ['SQuIDS', 'SUNalg', 'instantiate']),
     'C15': ('c15', 'other', ['SUNalg', 'instantiate', 'const', 'SQuIDS', 'MatrixExp']),
 }
 
